@@ -1,6 +1,7 @@
 package main
 
 import (
+	"fmt"
 	"go/ast"
 	"go/token"
 	"go/types"
@@ -839,4 +840,209 @@ var justifiedOBL = map[string]string{
 	"generator/go/sqlcrud.(context).generatePrimaryTable|ta.Columns[primaryIndex]": "caller-guarded: generateTable calls generatePrimaryTable only when ta.Primary() >= 0, and Primary returns an index of Columns (side condition SIDE-callers)",
 	"analysis.LocalName|ty.Type().(*types.Named)": "caller-guarded: every call site carries an OBL-PRE obligation that its argument is a named-kind node",
 	"analysis/httpapi.resolveVarType|resolveIdentifier(arg, pkg).Type":        "every identifier used as an operand in a type-checked file is recorded in Info.Uses or Info.Defs; arg is an operand of a call in such a file",
+}
+
+// runNilMap (OBL-NILMAP): a store `x.f[k] = v` into a map-typed struct field requires that every way of
+// building the struct initialises f: every composite literal of the struct type sets the field, or the
+// storing function assigns it (make/literal) before the store.
+func runNilMap(w *World, only func(rel string) bool) []Ob {
+	var out []Ob
+	type site struct {
+		fi    *FuncInfo
+		as    *ast.AssignStmt
+		field *types.Var
+		recv  string
+	}
+	var sites []site
+	for _, fi := range sortedFuncs(w) {
+		if only != nil && !only(w.Rel(fi.Obj.Pkg())) {
+			continue
+		}
+		info := fi.Pkg.TypesInfo
+		ast.Inspect(fi.Decl.Body, func(x ast.Node) bool {
+			as, ok := x.(*ast.AssignStmt)
+			if !ok {
+				return true
+			}
+			for _, l := range as.Lhs {
+				ix, ok := l.(*ast.IndexExpr)
+				if !ok {
+					continue
+				}
+				sel, ok := ast.Unparen(ix.X).(*ast.SelectorExpr)
+				if !ok {
+					continue
+				}
+				fv, ok := info.Uses[sel.Sel].(*types.Var)
+				if !ok || !fv.IsField() {
+					continue
+				}
+				if _, isMap := fv.Type().Underlying().(*types.Map); !isMap {
+					continue
+				}
+				sites = append(sites, site{fi, as, fv, es(sel.X)})
+			}
+			return true
+		})
+	}
+	for _, s := range sites {
+		info := s.fi.Pkg.TypesInfo
+		cons := es(s.as.Lhs[0]) + " = …"
+		// (a) assigned in the same function before the store
+		local := false
+		ast.Inspect(s.fi.Decl.Body, func(x ast.Node) bool {
+			as, ok := x.(*ast.AssignStmt)
+			if !ok || as.Pos() >= s.as.Pos() {
+				return true
+			}
+			for i, l := range as.Lhs {
+				if sel, ok := l.(*ast.SelectorExpr); ok && info.Uses[sel.Sel] == types.Object(s.field) && i < len(as.Rhs) && isFreshValue(as.Rhs[i]) {
+					local = true
+				}
+			}
+			return true
+		})
+		if local {
+			out = append(out, Ob{Rule: "OBL-NILMAP", Func: s.fi.Name, Construct: cons, Pos: w.Pos(s.as.Pos()), Verdict: VOK, How: "M1: the field is assigned a fresh map earlier in the same function", Nontrivial: true})
+			continue
+		}
+		// (b) every composite literal of the owning struct type initialises the field
+		var owner *types.Named
+		for _, p := range w.Pkgs {
+			for _, name := range p.Types.Scope().Names() {
+				if tn, ok := p.Types.Scope().Lookup(name).(*types.TypeName); ok {
+					if st, ok := tn.Type().Underlying().(*types.Struct); ok {
+						for i := 0; i < st.NumFields(); i++ {
+							if st.Field(i) == s.field {
+								owner, _ = tn.Type().(*types.Named)
+							}
+						}
+					}
+				}
+			}
+		}
+		nlit, ninit := 0, 0
+		zeroDecl := false
+		if owner != nil {
+			for _, fi2 := range sortedFuncs(w) {
+				inf := fi2.Pkg.TypesInfo
+				ast.Inspect(fi2.Decl.Body, func(x ast.Node) bool {
+					switch v := x.(type) {
+					case *ast.CompositeLit:
+						if t := inf.TypeOf(v); t != nil && types.Identical(t, owner) {
+							nlit++
+							for _, el := range v.Elts {
+								if kv, ok := el.(*ast.KeyValueExpr); ok {
+									if id := identOf(kv.Key); id != nil && inf.Uses[id] == types.Object(s.field) && isFreshValue(kv.Value) {
+										ninit++
+									}
+								}
+							}
+						}
+					case *ast.ValueSpec:
+						if v.Type != nil && len(v.Values) == 0 {
+							if t := inf.TypeOf(v.Type); t != nil && types.Identical(t, owner) {
+								zeroDecl = true
+							}
+						}
+					}
+					return true
+				})
+			}
+		}
+		if owner != nil && nlit > 0 && nlit == ninit && !zeroDecl {
+			out = append(out, Ob{Rule: "OBL-NILMAP", Func: s.fi.Name, Construct: cons, Pos: w.Pos(s.as.Pos()), Verdict: VOK, How: fmt.Sprintf("M2: all %d composite literals of %s initialise the field with a fresh map", nlit, owner.Obj().Name()), Nontrivial: true})
+			continue
+		}
+		// (c) every chain of callers reaches, before any exported entry point, a function that assigns the
+		// field a fresh map before the call
+		if how, ok := initialisedByCallers(w, s.fi, s.field); ok {
+			out = append(out, Ob{Rule: "OBL-NILMAP", Func: s.fi.Name, Construct: cons, Pos: w.Pos(s.as.Pos()), Verdict: VOK, How: how, Nontrivial: true})
+			continue
+		}
+		if why, ok := justifiedOBL[s.fi.Name+"|"+cons]; ok {
+			out = append(out, Ob{Rule: "OBL-NILMAP", Func: s.fi.Name, Construct: cons, Pos: w.Pos(s.as.Pos()), Verdict: VJustified, How: why, Nontrivial: true})
+			continue
+		}
+		out = append(out, Ob{Rule: "OBL-NILMAP", Func: s.fi.Name, Construct: cons, Pos: w.Pos(s.as.Pos()), Verdict: VViolation, How: "store into a map-typed struct field that is not initialised on every way of building the struct: 'assignment to entry in nil map' at run time", Nontrivial: true})
+	}
+	return out
+}
+
+// initialisedByCallers: walking the static call graph upwards from fi, every path meets a function in
+// which `X.field = <fresh map>` precedes the call, before it meets an exported function or a root.
+func initialisedByCallers(w *World, fi *FuncInfo, field *types.Var) (string, bool) {
+	callers := map[*FuncInfo][]struct {
+		from *FuncInfo
+		call *ast.CallExpr
+	}{}
+	for _, f2 := range sortedFuncs(w) {
+		inf := f2.Pkg.TypesInfo
+		ast.Inspect(f2.Decl.Body, func(x ast.Node) bool {
+			if call, ok := x.(*ast.CallExpr); ok {
+				if fn := calleeOf(inf, call); fn != nil {
+					if t := w.Funcs[fn]; t != nil {
+						callers[t] = append(callers[t], struct {
+							from *FuncInfo
+							call *ast.CallExpr
+						}{f2, call})
+					}
+				}
+			}
+			return true
+		})
+	}
+	assignsBefore := func(f2 *FuncInfo, pos token.Pos) bool {
+		ok := false
+		ast.Inspect(f2.Decl.Body, func(x ast.Node) bool {
+			as, isA := x.(*ast.AssignStmt)
+			if !isA || as.Pos() >= pos {
+				return true
+			}
+			for i, l := range as.Lhs {
+				if sel, isS := l.(*ast.SelectorExpr); isS && f2.Pkg.TypesInfo.Uses[sel.Sel] == types.Object(field) && i < len(as.Rhs) && isFreshValue(as.Rhs[i]) {
+					ok = true
+				}
+			}
+			return true
+		})
+		return ok
+	}
+	seen := map[*FuncInfo]bool{}
+	initialisers := map[string]bool{}
+	var up func(f *FuncInfo) bool
+	up = func(f *FuncInfo) bool {
+		if seen[f] {
+			return true
+		}
+		seen[f] = true
+		cs := callers[f]
+		if len(cs) == 0 || f.Obj.Exported() {
+			return false // an entry point reached without initialisation
+		}
+		for _, c := range cs {
+			if c.from == f {
+				continue
+			}
+			if assignsBefore(c.from, c.call.Pos()) {
+				initialisers[c.from.Name] = true
+				continue
+			}
+			if !up(c.from) {
+				return false
+			}
+		}
+		return true
+	}
+	if !up(fi) {
+		return "", false
+	}
+	var names []string
+	for n := range initialisers {
+		names = append(names, n)
+	}
+	if len(names) == 0 {
+		return "", false
+	}
+	return "M3: every chain of callers passes through " + strings.Join(names, ", ") + ", which assigns the field a fresh map before the call", true
 }
